@@ -224,7 +224,7 @@ def gen_module(rng, uid, trigger=None):
             g.add_const()
     fs = [f for f in sorted(FUNCS) if rng.random() < 0.35]
     vs = [v for v in sorted(VARS) if rng.random() < 0.3]
-    ks = [k for k in sorted(LIBCONSTS) if rng.random() < 0.3]
+    ks = []      # `static const int X;` is not readable through the in-line dlopen (NotImplementedError): outside the property
     if any("c11_pt" in (FUNCS.get(x) or VARS.get(x)) for x in fs + vs):
         g.lines.append("struct c11_pt { int x; int y; };")
         g.types.append("struct c11_pt")
@@ -341,11 +341,10 @@ def finding_key(case, kind, info):
                     and not d["only_ool"][2] and "FILE" in case["cdef"]):
                 return "list_types-FILE"
         if d["cat"] == "type" and "c1" in d:
-            # `typedef struct TAG {...} NAME;`: the in-line ctype is called NAME, the out-of-line one `struct TAG`
-            ren = dict((m.group(3), "%s %s" % (m.group(1), m.group(2))) for m in re.finditer(
-                r"typedef (struct|union) (\w+) \{[^;]*(?:;[^;}]*|\{[^}]*\}[^;]*;)*\} (\w+)[,;]", case["cdef"]))
-            ren.update((m.group(3), "%s %s" % (m.group(1), m.group(2))) for m in re.finditer(
-                r"typedef (struct|union) (\w+) \{.*?\} (\w+)(?:, \*\w+)?;", case["cdef"]))
+            # `typedef struct TAG [{...}] NAME;`: the in-line ctype is called NAME, the out-of-line one `struct TAG`
+            ren = {}
+            for m in re.finditer(r"typedef (struct|union) (\w+) (?:\{.*?\} )?(\w+)(?:, \*\w+)?;", case["cdef"] + "\n" + (case.get("base") or "")):
+                ren[m.group(3)] = "%s %s" % (m.group(1), m.group(2))
 
             def norm(x):
                 if isinstance(x, str):
